@@ -219,11 +219,12 @@ def parse_trace(path, root_abs, root_rel):
 
 # ---------------------------------------------------------------- inode-level file system
 class Inode:
-    __slots__ = ("data", "synced")
+    __slots__ = ("data", "synced", "marks")
 
-    def __init__(self, data=b"", synced=0):
+    def __init__(self, data=b"", synced=0, marks=None):
         self.data = bytearray(data)
         self.synced = synced
+        self.marks = list(marks or [])      # file length after each write() call
 
 
 class PyFS:
@@ -236,7 +237,7 @@ class PyFS:
         memo = {}
         for p, nd in self.files.items():
             if id(nd) not in memo:
-                memo[id(nd)] = Inode(bytes(nd.data), nd.synced)
+                memo[id(nd)] = Inode(bytes(nd.data), nd.synced, nd.marks)
             c.files[p] = memo[id(nd)]
         c.dirs = set(self.dirs)
         return c
@@ -261,6 +262,7 @@ class PyFS:
             nd = self.files.get(ev.p1)
             if nd is not None:
                 nd.data += ev.data
+                nd.marks.append(len(nd.data))
         elif k == "sync":
             nd = self.files.get(ev.p1)
             if nd is not None:
@@ -279,18 +281,24 @@ class PyFS:
         elif k == "truncate":
             pass
 
-    def image(self, mode):
+    def image(self, mode, rng=None):
         """the state after the machine went down: mode 'a' keeps everything, mode 'b' cuts every
-        inode to its last synced length; afterwards everything is durable"""
+        inode to its last synced length, mode 'r' cuts every inode independently after some whole
+        write() call at or beyond its synced length; afterwards everything is durable"""
         c = self.clone()
         seen = set()
-        for nd in c.files.values():
+        for p in sorted(c.files):
+            nd = c.files[p]
             if id(nd) in seen:
                 continue
             seen.add(id(nd))
             if mode == "b":
                 del nd.data[nd.synced:]
+            elif mode == "r":
+                cuts = [nd.synced] + [m for m in nd.marks if m > nd.synced]
+                del nd.data[cuts[rng.below(len(cuts))]:]
             nd.synced = len(nd.data)
+            nd.marks = [m for m in nd.marks if m <= len(nd.data)]
         return c
 
     def materialise(self, root):
